@@ -207,7 +207,7 @@ let handle (x : Sexp.t) : string =
            let corr =
              match mser with
              | Some (POk lines) ->
-                 (match parse_lines dbg lines with
+                 (match parse_lines_v code_variant dbg lines with
                   | POk msys1 ->
                       (* rename the model's symbols positionally to the implementation's names *)
                       let msyms = msys1.s_inputs @ List.map (fun s -> s.st_sym) msys1.s_states in
